@@ -34,6 +34,27 @@ def oadd(t, items, eng=None):
     return tuple(out)
 
 
+def _residual_err_name(node, depth=0):
+    """Variant name of the error when the residual is (only through moves, downcasts and Try::branch) an
+    `Err(Error::X)` aggregate built in this body; None when it comes from anywhere else."""
+    n = strip(node)
+    if depth > 12:
+        return None
+    if n.kind in ("field", "downcast"):
+        return _residual_err_name(n[1], depth + 1)
+    if n.kind == "call" and n[6] == "branch" and n[3]:
+        return _residual_err_name(n[3][0], depth + 1)
+    if n.kind == "phi":
+        names = set(_residual_err_name(x, depth + 1) for x in n[1])
+        names.discard(None)
+        return sorted(names)[0] if len(names) == 1 else None
+    if n.kind == "agg" and n[1] == "adt" and n[2].endswith("Result::Err") and n[3]:
+        e = strip(n[3][0][1])
+        if e.kind == "agg" and e[1] == "adt":
+            return e[2].split("::")[-1]
+    return None
+
+
 class EffectEngine:
     def __init__(self, facts, crate_name="penguin_mux", maxdepth=40, extra_call_effects=None, ordered=False,
                  keep=None, keep_fact=None, opaque=None):
@@ -247,7 +268,7 @@ class EffectEngine:
         def on_stmt(bb, i, s, auto):
             if s["k"] == "Assign" and s["rv"]["k"] == "Aggregate":
                 a = s["rv"]["agg"]
-                if a["a"] in ("Coroutine",) and a["def"] in eng.facts.by_dp:
+                if a["a"] in ("Coroutine",) and a["def"] in eng.facts.by_dp and not a.get("spliced"):
                     cb = eng.facts.by_dp[a["def"]]
                     # upvar constants from the creation operands
                     ctx2 = []
@@ -276,6 +297,11 @@ class EffectEngine:
             if c is None:
                 return auto
             effs = eng.call_effects(b, tr, bb, t)
+            if c["name"] == "from_residual" and (t.get("dest") or {}).get("l") == 0 and not (t.get("dest") or {}).get("p") and t["args"]:
+                # `?` on the Err built by a helper that normalize.py inlined here: the function returns that Err
+                nm = _residual_err_name(tr.operand(t["args"][0]))
+                if nm:
+                    effs = set(effs or ()) | {"ret:Err(%s)" % nm}
             if effs:
                 for e in effs:
                     eng.sites.add((b.dp, bb, e))
